@@ -53,6 +53,8 @@ for d in sorted(glob.glob("/verif/seeded/*/")):
         first, strengthened = "outside", "outside this property as stated; caught by the %s check" % m["caught_by_other_property"]
     elif m.get("outside_property"):
         first, strengthened = "outside", m["outside_property"][:330]
+    elif m.get("open_miss"):
+        first, strengthened = "missed", "**open**: " + m["open_miss"][:300]
     elif m.get("not_detected"):
         first, strengthened = "missed", "**not caught** (needs a forced thread schedule + poisoning of deleted requests; see below)"
     elif first == "missed":
